@@ -41,6 +41,11 @@ def templates(cfg):
     T("string_to_int_roundtrip", lambda p, t: t >> p.mutate(y=t.a.cast(p.String()).cast(p.Int64())), S_S, int_bound=999)
     T("string_to_int_filter", lambda p, t: t >> p.filter(t.s.cast(p.Int64()) > t.a), S_S, alphabet=DIGITS)
     T("int_to_generic_float", lambda p, t: t >> p.mutate(y=t.a.cast(p.Float()) + t.f))
+    # casts to the abstract targets Int() / Float() whose result is exported as it is (no later operator that would
+    # promote it anyway): value and - through C12's type obligations - exported dtype (round 5, C12-F)
+    T("int_to_generic_float_bare", lambda p, t: t >> p.mutate(y=t.a.cast(p.Float()), z=t.a.cast(p.Float()) * 2, w=-t.a.cast(p.Float())))
+    T("generic_targets_bare", lambda p, t: t >> p.mutate(n=p.lit(None).cast(p.Int()), m=p.lit(None).cast(p.Float()), i=t.a.cast(p.Int()), g=t.f.cast(p.Float())))
+    T("generic_float_agg", lambda p, t: t >> p.summarize(s=t.a.cast(p.Float()).sum(), m=t.a.cast(p.Float()).max()))
     T("int_to_generic_float_to_string", lambda p, t: t >> p.mutate(y=t.a.cast(p.Float()).cast(p.String())), int_bound=1000)
     T("int_to_float64_to_string", lambda p, t: t >> p.mutate(y=t.a.cast(p.Float64()).cast(p.String())), int_bound=1000)
     T("float_to_string", lambda p, t: t >> p.mutate(y=t.f.cast(p.String())), int_bound=100)
